@@ -19,7 +19,9 @@ InitsFl == {
   \* tombstones over nothing
   St(EmptyView, O({<<kA, TOMB>>, <<kFF, TOMB>>, <<kB, "">>}), <<>>, FALSE, NoSnaps),
   \* clean overlay, written batch, snapshot
-  St(V({<<kAF, "1">>, <<kF, "1">>, <<kFF, "">>}), EmptyOver, <<OpPut(kFF, "1")>>, TRUE, Snap1({<<kAF, "1">>}))
+  St(V({<<kAF, "1">>, <<kF, "1">>, <<kFF, "">>}), EmptyOver, <<OpPut(kFF, "1")>>, TRUE, Snap1({<<kAF, "1">>})),
+  \* a written, not yet reset batch whose keys are still unflushed
+  St(V({<<kA0, "1">>, <<kFF, "">>}), O({<<kA, "1">>, <<kB, "">>, <<kFF, "2">>}), <<OpPut(kA, "1"), OpPut(kFF, "2")>>, TRUE, NoSnaps)
 }
 
 ASSUME BytesSelfCheck
